@@ -3,5 +3,18 @@
 /* zlib's crc32 replaced by an order-sensitive rolling function (DESIGN.md 2.3); deflate/inflate are not modelled. */
 #ifndef REAL
 uint64_t crc32(uint64_t h, uint8_t* p, uint32_t n) { uint32_t x = (uint32_t)h; for (uint32_t i = 0; i < n; i++) x = 31u * x + p[i]; return x; }
+/* deflate / inflate are not modelled: CBLOCK records and compression_level > 0 are outside every claim; reaching them fails */
+#ifdef ZSTUB_INFLATE
+struct S_struct_z_stream_s;
+uint32_t inflateInit2_(struct S_struct_z_stream_s* z, uint32_t a, uint8_t* v, uint32_t n) { __CPROVER_assert(0, "zlib inflate reached (CBLOCK is outside the claim)"); return 0; }
+uint32_t inflate(struct S_struct_z_stream_s* z, uint32_t f) { __CPROVER_assert(0, "zlib inflate reached"); return 0; }
+uint32_t inflateEnd(struct S_struct_z_stream_s* z) { return 0; }
+#endif
+#ifdef ZSTUB_DEFLATE
+uint32_t deflateInit2_(struct S_struct_z_stream_s* z, uint32_t a, uint32_t b, uint32_t c, uint32_t d, uint32_t e, uint8_t* v, uint32_t n) { __CPROVER_assert(0, "zlib deflate reached (compression is outside the claim)"); return 0; }
+uint64_t deflateBound(struct S_struct_z_stream_s* z, uint64_t n) { return n; }
+uint32_t deflate(struct S_struct_z_stream_s* z, uint32_t f) { __CPROVER_assert(0, "zlib deflate reached"); return 0; }
+uint32_t deflateEnd(struct S_struct_z_stream_s* z) { return 0; }
+#endif
 #endif
 #endif
